@@ -11,4 +11,4 @@ def check(ctx):
                        "unchanged target must compare equal; after dropping the stacks every manager must be collectable; "
                        "a value-stack sentinel's refcount must return to baseline; the runner subprocess must exit 0")
     ctx.assume("reference counts / collectability / no-crash are measured on the explored behaviours (exploration-level for that clause)")
-    m7.explore(ctx, "purity", 60, 600, seed_off=4, quick_stride=10, thorough_stride=2)
+    m7.explore(ctx, "purity", 60, 600, seed_off=4, quick_stride=15, thorough_stride=2)
